@@ -160,6 +160,26 @@ def _scan_grid(nn, jnp, jax, fails, tier):
     fails.append(dict(inputs=dict(transform='scan', program='parent with an earlier layer + scanned cell with broadcast params'), observed=f'raised {e!r}'[:300], violated='scan-broadcast-init'))
   cases += 1
   try:
+    from flax.core.lift import Out
+
+    class Tick(nn.Module):
+      @nn.compact
+      def __call__(self, c, x):
+        n = self.variable('ticks', 'n', lambda: jnp.zeros(()))
+        n.value = n.value + 1.0
+        return c + x, c
+    for ax in (0, 1):
+      St = nn.scan(Tick, variable_axes={'ticks': Out(0)}, split_rngs={}, length=3)
+      (c1, _), u1 = St().apply({}, jnp.zeros(()), xs, mutable=['ticks'])
+      (c2, _), u2 = St().apply(dict(u1), jnp.zeros(()), xs, mutable=['ticks'])
+      if not np.allclose(np.asarray(u2['ticks']['n']), np.asarray(u1['ticks']['n'])) or not np.allclose(np.asarray(u1['ticks']['n']), 1.0):
+        fails.append(dict(inputs=dict(transform='scan', program='per-iteration counter in an Out(0) collection, second call fed with the first call\'s updates'),
+                          observed=f"per-iteration counters {np.asarray(u1['ticks']['n'])} then {np.asarray(u2['ticks']['n'])}: an output-only collection must start empty in every call", violated='scan-out-only'))
+        break
+  except Exception as e:  # noqa
+    fails.append(dict(inputs=dict(transform='scan', program='per-iteration counter in an Out(0) collection'), observed=f'raised {e!r}'[:300], violated='scan-out-only'))
+  cases += 1
+  try:
     S = nn.scan(Table, variable_broadcast='table', split_rngs={}, length=3)
     (c, _), upd = S().apply({'table': {'v': jnp.asarray([1.0, 2.0, 3.0])}}, jnp.zeros(()), xs, mutable=['table'])
     if not np.allclose(np.asarray(upd['table']['v']), [3.0, 6.0, 9.0]):
@@ -226,6 +246,14 @@ def _vmap_grid(nn, jnp, jax, fails, tier):
     distinct = len({round(float(v), 6) for v in z})
     if (split and distinct != B) or (not split and distinct != 1):
       fails.append(dict(inputs=inp, observed=f'{distinct} distinct keys over {B} indices with split_rngs={split}', violated='vmap-rng-split'))
+      continue
+    # an Out(axis) collection is output-only: a second call fed with the first call's updates gives the same result
+    try:
+      y2, upd2 = V().apply({**variables, **upd}, xs, rngs={'noise': jax.random.key(2)}, mutable=['intermediates', 'noise_seen'])
+      if not _close(y2, y) or not _close(upd2['intermediates'], upd['intermediates']):
+        fails.append(dict(inputs=dict(inp, call='second call, fed with the updates of the first'), observed='the result depends on what the output-only (Out) collection held on entry', violated='vmap-out-only'))
+    except Exception as e:  # noqa
+      fails.append(dict(inputs=dict(inp, call='second call, fed with the updates of the first'), observed=f'raised {e!r}'[:300], violated='vmap-out-only'))
   return cases
 
 
